@@ -851,7 +851,10 @@ pub fn scenarios(tier: Tier) -> Vec<Scenario> {
     for method in 0..5usize {
         for ms in [1usize, 2] {
             let depth = match (thorough, ms) {
-                (false, 1) => 5,
+                // quick: full depth for two of the five methods (the cache and
+                // registry logic does not depend on the method), one step less
+                // for the other three
+                (false, 1) => if method == 0 || method == 3 { 5 } else { 4 },
                 (false, _) => 4,
                 (true, 1) => 8,
                 (true, _) => 6,
